@@ -86,6 +86,15 @@ def build(desc):
         s["max_live_trade_count"] = 1 if disciplined else rng.choice((1, 2, 1e6))
         s["multi_order_trades"] = False if disciplined else rng.random() < 0.5
         s["disciplined"] = disciplined
+    if desc["idx"] % 6 == 4 and not desc.get("directed"):
+        # one strategy instance trades runners with different budgets: its validate_order hook loads the budget of the order's runner
+        # into max_selection_exposure before delegating (the limit in force is the one the hook has just set)
+        keys = sorted({tuple(k_) for sn in snaps.values() for s_ in sn[:1] for k_ in s_["runners"]})
+        for s in case["strategies"]:
+            s["budgets"] = {"%s,%s" % k_: rng.choice((3.0, 8.0, 20.0, 60.0)) for k_ in keys}
+            s.setdefault("limits", {})
+            s["limits"] = dict(s["limits"], selection=rng.choice((8.0, 20.0)))
+            s["disciplined"] = False  # (the end-to-end bound is stated for one limit per strategy)
     if desc.get("directed") == "replace":
         # LAY 10 @ 1.5 (exposure 5) accepted under limits 20/20, then replaced to 5.0 (exposure 40): matched at once, runner wins
         from .. import marketgen as G
